@@ -128,12 +128,22 @@ def load(reg):      # noqa: F811
     # scaling by a plain number (the first branch of * and /); products and quotients of two quantities go through the
     # class-object keyed conversion tables and stay with the table invariants + BOUNDED sweeps of C16
     SCALAR = "not isref(other) and (typeis_builtin(other, 'float') or typeis_builtin(other, 'int'))"
-    reg.contract("Quantity.__mul__", params={"other": "obj"}, returns="ref:Quantity",
-                 requires=[SCALAR, "isfin(other)"], raises=[],
-                 ensures=NEW + ["result.g_si == self.g_si * val(num(other))"], props=C16 + C17, **G)
-    reg.contract("Quantity.__truediv__", params={"other": "obj"}, returns="ref:Quantity",
-                 requires=[SCALAR, "isfin(other)"], raises=[("ZeroDivisionError", "val(num(other)) == 0")],
-                 ensures=NEW + ["result.g_si == self.g_si / val(num(other))"], props=C16 + C17, **G)
+    OQ = "asref(other, 'Quantity')"
+    for op, sym, has, cls in (("__mul__", "*", "has_mul", "mul_class"), ("__truediv__", "/", "has_div", "div_class")):
+        NAMED = "isref(other) and instance(other, 'Quantity') and %s(self, other)" % has
+        reg.contract("Quantity.%s" % op, params={"other": "obj"}, returns="ref:Quantity",
+                     # scope: scaling by a plain number, or a pair of classes with an entry in the conversion table (the generic
+                     # SI fall-back for pairs without an entry stays with the BOUNDED pair sweep)
+                     requires=["(%s and isfin(other)) or (%s)" % (SCALAR, NAMED)],
+                     raises=[("ZeroDivisionError", "(%s and val(num(other)) == 0) or (%s and %s.g_si == 0)" % (SCALAR, NAMED, OQ))]
+                     if op == "__truediv__" else [],
+                     ensures=["isfresh(result)",
+                              "implies(%s, sametype(result, self) and result._unit == self._unit"
+                              " and result.g_si == self.g_si %s val(num(other)))" % (SCALAR, sym),
+                              # named result: the class the table prescribes, in its base unit, SI value = product / quotient
+                              "implies(%s, class_of(result) == %s(self, other) and result.g_si == self.g_si %s %s.g_si)"
+                              % (NAMED, cls, sym, OQ)],
+                     props=C16 + C17, **G)
 
     # isinstance(v, T) for a class object T held in a variable or field (closed world over the class table)
     def isinstance_of_type(eng, v, tv):
@@ -149,3 +159,59 @@ def load(reg):      # noqa: F811
     reg.specfun("isinstance_of", lambda eng, v, tv: isinstance_of_type(eng, v, tv))
     reg.specfun("is_quantity_class", lambda eng, tv: mk_bool(z3.Or(*[tv.t == eng.class_id(c) for c in eng.table.subclasses("Quantity")
                                                                     if c != "Quantity"])))
+
+    # ---- named products and quotients: type(self)._mul / _div are tables from class objects to class objects
+    import z3 as _z3
+    TT = S.parse_type("map[type,type]")
+    MULK = reg.ufun("mul_keys", _z3.IntSort(), _z3.SeqSort(_z3.IntSort()))
+    MULV = reg.ufun("mul_vals", _z3.IntSort(), _z3.ArraySort(_z3.IntSort(), _z3.IntSort()))
+    DIVK = reg.ufun("div_keys", _z3.IntSort(), _z3.SeqSort(_z3.IntSort()))
+    DIVV = reg.ufun("div_vals", _z3.IntSort(), _z3.ArraySort(_z3.IntSort(), _z3.IntSort()))
+    KEYS = reg.ufun("unit_keys", _z3.IntSort(), _z3.SeqSort(_z3.IntSort()))
+    FACT = reg.ufun("unit_factors", _z3.IntSort(), _z3.ArraySort(_z3.IntSort(), _z3.RealSort()))
+    BASE = reg.ufun("base_unit", _z3.IntSort(), _z3.IntSort())
+
+    def qids(eng):
+        return [eng.class_id(c) for c in eng.table.subclasses("Quantity") if c != "Quantity"]
+
+    def table_wf(eng, st, tid):
+        """data invariant used: the entries of _mul / _div of a quantity class are quantity classes (TInv checks every entry)"""
+        k = _z3.Int("tw_k")
+        isq = lambda t: _z3.Or(*[t == i for i in qids(eng)])
+        for K, V in ((MULK, MULV), (DIVK, DIVV)):
+            st.assume(_z3.ForAll([k], _z3.Implies(_z3.Contains(K(tid), _z3.Unit(k)), _z3.And(isq(k), isq(_z3.Select(V(tid), k))))))
+    reg.specfun("typeattr__mul", lambda eng, tv, s: (table_wf(eng, s, tv.t) if not eng.spec else None) or eng.map_mk(TT, MULK(tv.t), MULV(tv.t)))
+    reg.specfun("typeattr__div", lambda eng, tv, s: (table_wf(eng, s, tv.t) if not eng.spec else None) or eng.map_mk(TT, DIVK(tv.t), DIVV(tv.t)))
+    reg.specfun("typeattr__baseunit", lambda eng, tv, s: SV(STR, S.sof(BASE(tv.t))))
+
+    def type_value_call(eng, s, tv, args, kwargs):
+        """newclass(value, unit): assumed construction contract -- SI value = value * factor(unit) for a declared unit"""
+        from pyvc.engine import Unsupported
+        if len(args) != 2 or kwargs:
+            raise Unsupported("construction through a class object with %d arguments" % len(args))
+        val = eng.coerce(args[0], REAL)[0].t
+        ut = _z3.simplify(eng.coerce(args[1], STR)[0].t)
+        # a unit given as sof(id) (e.g. cls._baseunit) is that id: avoids the sid/sof bijection axiom
+        unit = ut.arg(0) if (_z3.is_app(ut) and ut.num_args() == 1 and ut.decl().name() == S.sof(_z3.IntVal(0)).decl().name()) else S.sid(ut)
+        tid = tv.t
+        isq = _z3.Or(*[tid == i for i in qids(eng)])
+        s.assume(_z3.Implies(isq, _z3.And(_z3.Contains(KEYS(tid), _z3.Unit(BASE(tid))), _z3.Select(FACT(tid), BASE(tid)) == 1)))
+        bad = _z3.Not(_z3.Contains(KEYS(tid), _z3.Unit(unit)))
+
+        def cont(s2):
+            r = _z3.simplify(eng.A0 + s2.nalloc)
+            s2.nalloc = s2.nalloc + 1
+            s2.assume(S.typeof(r) == tid)
+            eng.store_field(s2, r, "Quantity", "g_si", SV(REAL, val * _z3.Select(FACT(tid), unit)))
+            eng.store_field(s2, r, "Quantity", "_unit", SV(STR, S.sof(unit)))
+            return [(s2, SV(REF("Quantity"), r))]
+        return eng.implicit(s, "ValueError", bad, cont)
+    reg.specfun("type_value_call", type_value_call)
+    reg.trust("Quantity construction with a unit (`cls(value, unit)`): ValueError for an undeclared unit, otherwise a new object of "
+              "that class with SI value value * factor(unit) (assumed, bounded construction sweep); _mul/_div entries map quantity "
+              "classes to quantity classes (TInv ground obligations)")
+    reg.specfun("has_mul", lambda eng, x, y: mk_bool(_z3.Contains(MULK(S.typeof(x.t)), _z3.Unit(S.typeof(PyObj.rval(eng.to_obj(y)))))))
+    reg.specfun("has_div", lambda eng, x, y: mk_bool(_z3.Contains(DIVK(S.typeof(x.t)), _z3.Unit(S.typeof(PyObj.rval(eng.to_obj(y)))))))
+    reg.specfun("mul_class", lambda eng, x, y: SV(Ty("type"), _z3.Select(MULV(S.typeof(x.t)), S.typeof(PyObj.rval(eng.to_obj(y))))))
+    reg.specfun("div_class", lambda eng, x, y: SV(Ty("type"), _z3.Select(DIVV(S.typeof(x.t)), S.typeof(PyObj.rval(eng.to_obj(y))))))
+    reg.specfun("class_of", lambda eng, x: SV(Ty("type"), S.typeof(x.t)))
